@@ -271,7 +271,7 @@ pub fn gen_cases(rng: &mut Rng, w_target: u16, w_refused: u16, w_v6: u16, quick:
     }
     // IPv6 requests: ::1 (accepting on its own port), a global address (unreachable), IPv4-mapped loopback
     // addresses (the request names an IPv6 address: that address, in that family, is what must be dialled)
-    for k in 0..if quick { 6 } else { 40 } {
+    for k in 0..if quick { 6 } else { 1200 } {
         let (ip4, p) = next_ip(true);
         let addrs: Vec<(std::net::Ipv6Addr, u16, bool)> = vec![
             (std::net::Ipv6Addr::LOCALHOST, w_v6, true),
@@ -289,7 +289,7 @@ pub fn gen_cases(rng: &mut Rng, w_target: u16, w_refused: u16, w_v6: u16, quick:
         let (ip, _) = next_ip(false);
         v.push(Case { greeting: ok_greeting.clone(), request: mk_req(1, 5, 0, dest_bytes(ip, port)), frag: 0, cut: 0, label: "port_boundary", dest: Some(SocketAddr::new(ip.into(), port)), dest_accepts: false });
     }
-    for _ in 0..if quick { 80 } else { 400 } {
+    for _ in 0..if quick { 80 } else { 30000 } {
         let acc = rng.chance(0.5);
         let (ip, p) = next_ip(acc);
         v.push(Case { greeting: ok_greeting.clone(), request: mk_req(1, 5, rng.below(256) as u8, dest_bytes(ip, p)), frag: rng.below(3) as u8, cut: 0, label: "well_formed", dest: Some(SocketAddr::new(ip.into(), p)), dest_accepts: acc });
